@@ -7,7 +7,7 @@ from dsim.runner import Result, finish, run_guarded
 
 ID = "C19"
 TITLE = "Resource requests map pins one-to-one and constraints name the right pin"
-RULE = ("case = (platform family in {iCE40/.pcf, ECP5-Trellis/.lpf, Gowin-Apicula/.cst}, generated resource table with Pins, "
+RULE = ("case = (platform family in {iCE40/.pcf, ECP5-Trellis/.lpf, Gowin-Apicula/.cst, Xilinx-X-Ray/.xdc, QuickLogic/.pcf+.sdc}, generated resource table with Pins, "
         "PinsN, DiffPairs, nested Subsignals, Attrs, Clocks, connectors and chains of connectors, deliberately overlapping "
         "pins; a history of <= 25 request operations including refusals placed after partial progress: duplicates, unknown "
         "resources, pin conflicts on a late pin of a late subsignal, illegal direction changes, bad xdr; then a build of a "
@@ -39,12 +39,12 @@ EXPECTED_PROBES = ("refuse", "refuse_conflict_late", "refuse_duplicate", "refuse
 PHYS = ["P%d" % i for i in range(1, 41)]
 
 
-def _gen_ios(cfg, pool, conns, depth, p_clock):
+def _gen_ios(cfg, pool, conns, depth, p_clock, allow_diff=True):
     """-> ios tree. pool: physical pin names to draw from (with replacement across resources -> overlaps)."""
     r = cfg.random()
     if depth < 2 and r < 0.3:
         n = cfg.randint(1, 3)
-        grp = {"subs": [dict(_gen_ios(cfg, pool, conns, depth + 1, p_clock), name="s%d" % i) for i in range(n)]}
+        grp = {"subs": [dict(_gen_ios(cfg, pool, conns, depth + 1, p_clock, allow_diff), name="s%d" % i) for i in range(n)]}
         if cfg.random() < 0.3:
             # attributes given at group level are inherited by the members, which may override or cancel (None) them
             grp["attrs"] = {"PULL": cfg.choice(["DOWN", None]), "IO_STANDARD": "LV3"}
@@ -69,7 +69,7 @@ def _gen_ios(cfg, pool, conns, depth, p_clock):
         if use_conn:
             return [str(cfg.choice(avail)) for _ in range(k)] if k > len(avail) else [str(x) for x in cfg.sample(avail, k)]
         return cfg.sample(pool, k)
-    if cfg.random() < 0.25:
+    if cfg.random() < 0.25 and allow_diff:
         node["diff"] = {"p": draw(width), "n": draw(width)}
         node["dir"] = d = cfg.choice(["i", "o"])      # the open-toolchain platforms reject bidirectional differential buffers
     else:
@@ -83,7 +83,7 @@ def gen_case(seed, tier):
     cfg = stream(seed, "cfg")
     wl = stream(seed, "workload")
     fl = stream(seed, "faults")
-    family = cfg.choice(["ice40", "ice40", "ecp5", "gowin"])
+    family = cfg.choice(["ice40", "ice40", "ecp5", "gowin", "xray", "quicklogic"])
     npool = cfg.choice([6, 10, 16, 30])
     pool = PHYS[:npool]
     conns = []
@@ -113,7 +113,7 @@ def gen_case(seed, tier):
         if (nm, num) in seen:
             continue
         seen.add((nm, num))
-        resources.append(dict(_gen_ios(cfg, pool, conns, 0, 0.5), name=nm, number=num))
+        resources.append(dict(_gen_ios(cfg, pool, conns, 0, 0.5, allow_diff=(family != "quicklogic")), name=nm, number=num))
     config = {"family": family, "connectors": conns, "resources": resources, "default_clk": None,
               "decoy_rev": bool(conns) and cfg.random() < 0.3}
     cands = [r for r in resources if r["number"] == 0 and "pins" in r and len(r["pins"]) == 1 and r["dir"] == "i"
@@ -150,7 +150,7 @@ def gen_case(seed, tier):
     # clock constraints the design itself puts on internal nets (named by hierarchical path in the constraint file), on a net
     # of the top module, and on a signal the design never uses (must be skipped silently)
     net_clocks = []
-    if wl.random() < 0.4:
+    if wl.random() < 0.4 and family != "quicklogic":      # (the QuickLogic .sdc names nets by their bare signal name: not judged)
         for sub in wl.sample(["local", "top", "unused", "sub_to_top", "top_to_sub", "sibling", "deep"], wl.randint(1, 3)):
             net_clocks.append({"sub": sub, "mhz": wl.choice([6, 12.5, 0.032768, 100, 33.333333])})
     return {"config": config, "steps": ops, "use_frac": wl.choice([1.0, 1.0, 0.6, 0.3]), "use_seed": wl.randrange(1 << 30),
@@ -211,6 +211,36 @@ def make_platform(config, shared_res=None, res_out=None):
             resources = res
             connectors = con
         return Plat(toolchain="Trellis"), ".lpf"
+    def _no_verilog(cls):
+        # (the Verilog outputs need yosys, which is not installed; they have no bearing on the constraint files)
+        class NoV(cls):
+            @property
+            def file_templates(self):
+                t = dict(super().file_templates)
+                for k_ in list(t):
+                    if k_.endswith(".v"):
+                        del t[k_]
+                return t
+        return NoV
+    if fam == "xray":
+        class Plat(_no_verilog(vendor.XilinxPlatform)):
+            device = "xc7a35ti"
+            package = "csg324"
+            speed = "1L"
+            default_clk = config.get("default_clk")
+            resources = res
+            connectors = con
+        return Plat(toolchain="Xray"), ".xdc"
+    if fam == "quicklogic":
+        class Plat(_no_verilog(vendor.QuicklogicPlatform)):
+            device = "ql-eos-s3"
+            package = "PU64"
+            osc_freq = 40_000_000
+            osc_div = 2
+            default_clk = config.get("default_clk")
+            resources = res
+            connectors = con
+        return Plat(), ".pcf+sdc"
     class Plat(vendor.GowinPlatform):
         part = "GW1NR-LV9QN88PC6/I5"
         family = "GW1NR-9C"
@@ -328,11 +358,27 @@ def model_request(config, state, op):
 
 
 # ---- constraint file parsers ----------------------------------------------------------------------------------------
-def parse_constraints(ext, text):
+def parse_constraints(ext, text, files=None):
     locs, freqs = [], []
+    if ext == ".pcf+sdc":
+        # QuickLogic: pins in the .pcf, clocks (periods in ns) in the .sdc
+        sdc = next((v for k, v in (files or {}).items() if k.endswith(".sdc")), "")
+        sdc = sdc.decode() if isinstance(sdc, bytes) else sdc
+        for line in sdc.splitlines():
+            m = re.fullmatch(r"create_clock -period (\S+) (\S+)", line.strip())
+            if m:
+                freqs.append((m.group(2), 1e9 / float(m.group(1))))
     for line in text.splitlines():
         line = line.strip()
-        if ext == ".pcf":
+        if ext == ".xdc":
+            m = re.fullmatch(r'set_property LOC (\S+) \[get_ports (.+)\]', line)
+            if m:
+                nm = m.group(2).strip()
+                if nm.startswith('"') or nm.startswith("{"):
+                    nm = nm[1:-1]
+                locs.append((nm.replace("\\", ""), m.group(1)))
+            continue
+        if ext in (".pcf", ".pcf+sdc"):
             m = re.fullmatch(r"set_io (\S+) (\S+)", line)
             if m:
                 locs.append((m.group(1), m.group(2)))
@@ -584,14 +630,14 @@ def run_history(config, ops, use_frac, use_seed, stats=None, record=None, net_cl
             raise Violation("illegal_request_granted", len(ops), {"op": "platform default_clk request at build",
                                                                   "expected_refusal": build_should_fail})
         plan = plat.build(m, do_build=False)
-    text = next((v for k, v in plan.files.items() if k.endswith(ext)), None)
+    text = next((v for k, v in plan.files.items() if k.endswith(ext.split("+")[0])), None)
     if text is None:
         raise Violation("no_constraint_file", -1, {"files": sorted(plan.files)})
     if isinstance(text, bytes):
         text = text.decode()
     if stats is not None:
         stats["probes"]["built"] += 1
-    locs, freqs = parse_constraints(ext, text)
+    locs, freqs = parse_constraints(ext, text, plan.files)
     seen = {}
     for name, pin in locs:
         if name in seen:
@@ -613,7 +659,7 @@ def run_history(config, ops, use_frac, use_seed, stats=None, record=None, net_cl
         if pin in pins_seen:
             raise Violation("pin_bound_twice", -1, {"pin": pin, "ports": [pins_seen[pin], name]})
         pins_seen[pin] = name
-    if ext != ".cst":
+    if ext not in (".cst", ".xdc"):          # (the Apicula and X-Ray templates carry no clock constraints)
         cseen = {}
         for name, hz in freqs:
             if name in cseen:
